@@ -25,6 +25,9 @@ pub fn check(tape: &[u32], st: &mut Stats) -> Result<(), String> {
     let dv = v.display.as_ref().unwrap().read().unwrap().clone();
     let dr = r.display.as_ref().unwrap().read().unwrap().clone();
     st.class(&format!("ending:{:?}", p.ending));
+    if p.info.trap_in_leaf_without_r7_spill {
+        st.class("io-trap-in-leaf-subroutine-without-R7-spill");
+    }
     if p.info.fault_in_open_frame {
         st.class("fault-inside-open-subroutine-frame");
     }
@@ -106,7 +109,7 @@ pub fn describe(tape: &[u32]) -> Value {
 
 pub fn run(ctx: &Ctx) -> Outcome {
     let mut out = Outcome::new(
-        "generated user programs (ALU/memory snippets, counted loops, nested subroutines with stack frames, OUT/PUTS/PUTSP/GETC/IN), half ending in HALT and half in one injected fault, half of those while a subroutine frame is open (load/store outside user space, jump to x0000, RTI, reserved opcode, malformed RTI word), \
+        "generated user programs (ALU/memory snippets, counted loops, nested subroutines with stack frames, leaf subroutines that do not spill R7 around their I/O traps, OUT/PUTS/PUTSP/GETC/IN), half ending in HALT and half in one injected fault, half of those while a subroutine frame is open (load/store outside user space, jump to x0000, RTI, reserved opcode, malformed RTI word), \
          each run twice from identical machines and keyboard queues: virtual and real traps; halting programs: equal display, R0-R5, user memory, real run stops through the OS; faulting programs: virtual run returns the matching error, real run prints the OS message for that exception after the same output and halts; \
          non-trivial = program has >=1 I/O trap and >=1 call, or faults; distinct by program words",
     );
@@ -114,7 +117,7 @@ pub fn run(ctx: &Ctx) -> Outcome {
     out.shards = cfg.shards;
     out.absorb(tape_search(ctx, "main", &cfg, check, describe));
     out.assumptions.push("the OS messages are the literal texts of the pinned OS image (\"\\n--- Access violation ---\\n\" etc.); the property only says that the OS message for that exception is printed".into());
-    out.essential = ["ending:Halt", "ending:AcvLoad", "ending:AcvStore", "ending:JumpOut", "ending:Rti", "ending:Illegal", "ending:BadFormat", "fault-inside-open-subroutine-frame"].iter().map(|s| s.to_string()).collect();
+    out.essential = ["ending:Halt", "ending:AcvLoad", "ending:AcvStore", "ending:JumpOut", "ending:Rti", "ending:Illegal", "ending:BadFormat", "fault-inside-open-subroutine-frame", "io-trap-in-leaf-subroutine-without-R7-spill"].iter().map(|s| s.to_string()).collect();
     out
 }
 
